@@ -21,6 +21,13 @@
 (* if so, adds them to the body (AddNumMiniBlocks/AddNumTxs); `size` is    *)
 (* the exact encoded size of the body built so far.                        *)
 (*                                                                         *)
+(* AddNumMiniBlocks / AddNumTxs are documented "concurrent safe": each is   *)
+(* ONE atomic read-modify-write (atomic.AddUint32), i.e. a commutative      *)
+(* increment.  Accumulate models G goroutines accounting miniblocks at the *)
+(* same time: whatever the interleaving, the counters end at the SUM of    *)
+(* all increments (order-independent); Ask is the proposer's final         *)
+(* IsMaxBlockSize[WithoutThrottle]Reached(0, 0) on the accumulated body.   *)
+(*                                                                         *)
 (* Shard ids are int32 views of the uint32 ids: -1 = core.MetachainShardId *)
 (* (0xFFFFFFFF), -16 = core.AllShardId (0xFFFFFFF0) -- TLC has 32-bit ints.*)
 (***************************************************************************)
@@ -35,11 +42,12 @@ VARIABLES cfg,
           mbSize, txSize,   \* calibrated by NewBlockSizeComputation
           numMb, numTx,     \* blockSizeComputation.numMiniBlocks / numTxs
           size,             \* encoded size of the body accepted so far
+          pend,             \* encoded size of the miniblocks accounted by Accumulate and not yet asked about
           feat,             \* features of the accepted groups the calibration does not see
           steps, hist
 
-vars  == <<cfg, mbSize, txSize, numMb, numTx, size, feat, steps, hist>>
-cvars == <<cfg, mbSize, txSize, numMb, numTx, size, feat, steps>>
+vars  == <<cfg, mbSize, txSize, numMb, numTx, size, pend, feat, steps, hist>>
+cvars == <<cfg, mbSize, txSize, numMb, numTx, size, pend, feat, steps>>
 
 -----------------------------------------------------------------------------
 (* protobuf wire sizes *)
@@ -105,14 +113,14 @@ Rec(a, in, out) ==
 New(c) ==
     /\ cfg' = c
     /\ mbSize' = CalMbSize(c) /\ txSize' = CalTxSize(c)
-    /\ numMb' = 0 /\ numTx' = 0 /\ size' = 0 /\ feat' = {} /\ steps' = 0
+    /\ numMb' = 0 /\ numTx' = 0 /\ size' = 0 /\ pend' = 0 /\ feat' = {} /\ steps' = 0
     /\ hist' = Log(<<>>, Rec("New", c, [mbSize |-> CalMbSize(c), txSize |-> CalTxSize(c),
                                          maxTxs |-> (c.maxSize - CalMbSize(c)) \div CalTxSize(c)]))
 
 Init ==
     \E c \in Configs :
         /\ cfg = c /\ mbSize = CalMbSize(c) /\ txSize = CalTxSize(c)
-        /\ numMb = 0 /\ numTx = 0 /\ size = 0 /\ feat = {} /\ steps = 0
+        /\ numMb = 0 /\ numTx = 0 /\ size = 0 /\ pend = 0 /\ feat = {} /\ steps = 0
         /\ hist = <<[a |-> "New", in |-> c,
                      out |-> [mbSize |-> CalMbSize(c), txSize |-> CalTxSize(c),
                               maxTxs |-> (c.maxSize - CalMbSize(c)) \div CalTxSize(c)],
@@ -125,7 +133,7 @@ Add(throttled, count, ntx, snd, rcv, type, reserved) ==
                reserved |-> reserved]
     IN
     /\ steps' = steps + 1
-    /\ UNCHANGED <<cfg, mbSize, txSize>>
+    /\ UNCHANGED <<cfg, mbSize, txSize, pend>>
     /\ IF fits
        THEN /\ numMb' = numMb + count /\ numTx' = numTx + count * ntx
             /\ size' = size + count * BodyEntry(ntx, snd, rcv, type, cfg.hashLen, reserved)
@@ -135,21 +143,47 @@ Add(throttled, count, ntx, snd, rcv, type, reserved) ==
 
 \* blockSizeComputation.Init(): a new block is started
 Reset ==
-    /\ numMb' = 0 /\ numTx' = 0 /\ size' = 0 /\ feat' = {} /\ steps' = steps + 1
+    /\ numMb' = 0 /\ numTx' = 0 /\ size' = 0 /\ pend' = 0 /\ feat' = {} /\ steps' = steps + 1
     /\ UNCHANGED <<cfg, mbSize, txSize>>
     /\ hist' = Log(hist, Rec("Reset", [x |-> 0], [x |-> 0]))
+
+\* G goroutines account miniblocks concurrently: goroutine g adds groups[g].count miniblocks with groups[g].ntx hashes
+\* each, one AddNumMiniBlocks(1) and ntx times AddNumTxs(1) per miniblock.  Every Add* is an atomic increment, so the
+\* result does not depend on the interleaving: the counters grow by the sums over the multiset of increments.
+SumGroups(gs, f(_)) ==
+    LET S[k \in 0..Len(gs)] == IF k = 0 THEN 0 ELSE S[k - 1] + f(gs[k]) IN S[Len(gs)]
+Accumulate(groups, snd, rcv, type) ==
+    /\ numMb' = numMb + SumGroups(groups, LAMBDA g : g.count)
+    /\ numTx' = numTx + SumGroups(groups, LAMBDA g : g.count * g.ntx)
+    /\ pend' = pend + SumGroups(groups, LAMBDA g : g.count * BodyEntry(g.ntx, snd, rcv, type, cfg.hashLen, 0))
+    /\ feat' = feat \cup UNION {Features(groups[k].ntx, snd, rcv, type, cfg.hashLen) : k \in 1..Len(groups)}
+    /\ steps' = steps + 1
+    /\ UNCHANGED <<cfg, mbSize, txSize, size>>
+    /\ hist' = Log(hist, Rec("Accumulate", [groups |-> groups, snd |-> snd, rcv |-> rcv, type |-> type], [x |-> 0]))
+
+\* the proposer's final question about what was accumulated: IsMaxBlockSize[WithoutThrottle]Reached(0, 0);
+\* "not reached" = the estimator says the accumulated body fits, so it is what gets proposed
+Ask(throttled) ==
+    LET reached == IsMaxReached(throttled, 0, 0) IN
+    /\ IF reached THEN UNCHANGED <<size, pend>> ELSE size' = size + pend /\ pend' = 0
+    /\ steps' = steps + 1
+    /\ UNCHANGED <<cfg, mbSize, txSize, numMb, numTx, feat>>
+    /\ hist' = Log(hist, Rec("Ask", [throttled |-> throttled],
+                              [reached |-> reached, fill |-> FillCount(throttled, 0)]))
 
 \* unbounded design; MC_BodySize restricts the additions to a finite, state-dependent grid
 Next ==
     \/ \E thr \in BOOLEAN, count \in Nat, ntx \in Nat, snd \in Int, rcv \in Int, type \in 0..255, reserved \in Nat :
           Add(thr, count, ntx, snd, rcv, type, reserved)
     \/ Reset
+    \/ \E groups \in Seq([count : Nat, ntx : Nat]), snd \in Int, rcv \in Int, type \in 0..255 : Accumulate(groups, snd, rcv, type)
+    \/ \E thr \in BOOLEAN : Ask(thr)
 
 Spec == Init /\ [][Next]_vars
 
 -----------------------------------------------------------------------------
 (* Properties *)
-TypeOK == numMb >= 0 /\ numTx >= 0 /\ size >= 0 /\ mbSize > 0 /\ txSize > 0
+TypeOK == numMb >= 0 /\ numTx >= 0 /\ size >= 0 /\ pend >= 0 /\ mbSize > 0 /\ txSize > 0
 
 \* C33: whatever the estimator let in, the encoded body does not exceed the network message size limit
 Inv_C33_WithinNetLimit == size <= cfg.netLimit
@@ -160,7 +194,7 @@ Inv_C33_Typed            == ClassOf(feat) = "Inv_C33_Typed" => size <= cfg.netLi
 Inv_C33_LongIdsAndTyped  == ClassOf(feat) = "Inv_C33_LongIdsAndTyped" => size <= cfg.netLimit
 
 \* the counters are what was let in and the estimate of what was let in never exceeds the limit used
-Inv_EstimateBounded == Estimate(numMb, numTx) <= cfg.maxSize
+Inv_EstimateBounded == pend = 0 => Estimate(numMb, numTx) <= cfg.maxSize
 \* how far the encoded size can run ahead of the estimate (the safety margin the design relies on)
 Undershoot == size - Estimate(numMb, numTx)
 Inv_UndershootWithinMargin == Undershoot <= cfg.netLimit - cfg.maxSize
